@@ -1,0 +1,70 @@
+//! Verification hooks (cargo feature `verif`): schedule points around the
+//! file-table lock, the salsa input writes and the life of snapshot tasks.
+//! Inert unless a harness installs a callback; the counters are always kept.
+use std::sync::atomic::{AtomicU64, Ordering};
+use std::sync::{Arc, RwLock};
+
+#[derive(Debug, Clone, Copy, PartialEq, Eq, Hash)]
+pub enum Ev {
+    /// about to take the file-table write lock
+    VfsWriteWant,
+    VfsWriteAcquired,
+    VfsWriteReleased,
+    /// about to take the file-table read lock (`site` names the call site)
+    VfsReadWant(&'static str),
+    VfsReadAcquired(&'static str),
+    VfsReadReleased(&'static str),
+    /// about to write salsa inputs (blocks until every snapshot is dropped)
+    SalsaWriteWant(&'static str),
+    SalsaWriteDone(&'static str),
+    /// a snapshot was taken for task `id` (reported on the spawning thread)
+    SnapshotCreated(u64),
+    TaskStart(u64),
+    /// the task's closure has returned and its snapshot is dropped
+    TaskEnd(u64),
+    Published,
+}
+
+type Callback = Arc<dyn Fn(Ev) + Send + Sync>;
+
+static CALLBACK: RwLock<Option<Callback>> = RwLock::new(None);
+static NEXT_TASK: AtomicU64 = AtomicU64::new(0);
+pub static TASKS_SPAWNED: AtomicU64 = AtomicU64::new(0);
+pub static TASKS_ENDED: AtomicU64 = AtomicU64::new(0);
+pub static PUBLISHED: AtomicU64 = AtomicU64::new(0);
+
+pub fn set_callback(cb: Option<Callback>) {
+    *CALLBACK.write().unwrap() = cb;
+}
+
+pub fn next_task_id() -> u64 {
+    NEXT_TASK.fetch_add(1, Ordering::SeqCst)
+}
+
+pub fn point(ev: Ev) {
+    match ev {
+        Ev::SnapshotCreated(_) => {
+            TASKS_SPAWNED.fetch_add(1, Ordering::SeqCst);
+        }
+        Ev::TaskEnd(_) => {
+            TASKS_ENDED.fetch_add(1, Ordering::SeqCst);
+        }
+        Ev::Published => {
+            PUBLISHED.fetch_add(1, Ordering::SeqCst);
+        }
+        _ => {}
+    }
+    let cb = CALLBACK.read().unwrap().clone();
+    if let Some(cb) = cb {
+        cb(ev);
+    }
+}
+
+/// Reports an event when dropped; declared before a lock guard it fires after the release.
+pub struct OnDrop(pub Ev);
+
+impl Drop for OnDrop {
+    fn drop(&mut self) {
+        point(self.0);
+    }
+}
